@@ -45,6 +45,7 @@ type startEvent struct {
 	once        sync.Once
 	activated   atomic.Bool
 	running     atomic.Bool
+	stopped     chan struct{} // closed when the event loop has ended
 	idGenerator id.IGenerator
 	satisfier   *logic.CatchEventSatisfier
 }
@@ -67,6 +68,7 @@ func newStartEvent(wr *wiring, element *schema.StartEvent, idGenerator id.IGener
 		element:     element,
 		mch:         make(chan imessage, len(wr.incoming)*2+1),
 		activated:   atomic.Bool{},
+		stopped:     make(chan struct{}),
 		idGenerator: idGenerator,
 		satisfier:   logic.NewCatchEventSatisfier(element, wr.eventDefinitionInstanceBuilder),
 	}
@@ -79,6 +81,7 @@ func newStartEvent(wr *wiring, element *schema.StartEvent, idGenerator id.IGener
 
 func (evt *startEvent) run(ctx context.Context, sender tracing.ISenderHandle) {
 	defer sender.Done()
+	defer close(evt.stopped)
 
 	for {
 		select {
@@ -124,7 +127,12 @@ func (evt *startEvent) ConsumeEvent(ev event.IEvent) (result event.ConsumptionRe
 		result = event.Consumed
 		return
 	}
-	evt.mch <- eventMessage{event: ev}
+	select {
+	case evt.mch <- eventMessage{event: ev}:
+	case <-evt.stopped:
+		// the event loop has ended with its context: nothing reads the inbox
+		// any more and the caller must not block on it
+	}
 	result = event.Consumed
 	return
 }
